@@ -1,4 +1,88 @@
-"""Extractor tables / fingerprints of group dfpart."""
-from tables import fp
+"""Extractor tables / fingerprints of group dfpart (C38 C39 C40 C41 C44 C45 C47)."""
+import ast
 
+from tables import ExtractError, fp, parse, table
+
+# C45
 fp("dask/dataframe/io/io.py", "sorted_division_locations")
+fp("dask/dataframe/partitionquantiles.py", "process_val_weights", "merge_and_compress_summaries", "percentiles_summary")
+fp("dask/dataframe/dask_expr/_quantiles.py", "RepartitionQuantiles._layer")
+fp("dask/dataframe/dask_expr/io/io.py", "FromPandas._divisions_and_locations")
+# C44
+fp("dask/dataframe/dask_expr/_repartition.py", "Repartition._lower", "Repartition._divisions", "Repartition.npartitions",
+   "RepartitionToFewer._compute_partition_boundaries", "RepartitionToFewer._layer", "RepartitionToFewer._divisions",
+   "RepartitionToMore._nsplits", "RepartitionToMore._layer", "RepartitionDivisions._layer", "_clean_new_division_boundaries",
+   "RepartitionSize._partition_boundaries")
+fp("dask/dataframe/core.py", "split_evenly", "check_divisions")
+fp("dask/dataframe/methods.py", "boundary_slice")
+# C41
+fp("dask/dataframe/dask_expr/_indexing.py", "LocSlice._divisions", "LocSlice._layer", "LocSlice.start", "LocSlice.stop",
+   "LocSlice._lower", "LocIndexer._loc", "LocIndexer._loc_slice", "LocList._layer_information")
+fp("dask/dataframe/dask_expr/_expr.py", "Partitions._divisions", "Partitions._simplify_down", "PartitionsFiltered.divisions",
+   "Head._simplify_up", "Tail._simplify_up")
+fp("dask/dataframe/indexing.py", "_partition_of_index_value", "_partitions_of_index_values")
+# C40
+fp("dask/dataframe/shuffle.py", "shuffle_group", "shuffle_group_2", "shuffle_group_get", "set_partitions_pre", "partitioning_index")
+fp("dask/dataframe/dask_expr/_shuffle.py", "SimpleShuffle._layer", "TaskShuffle._layer", "DiskShuffle._layer",
+   "DiskShuffle._shuffle_group", "SortValues._lower", "SetIndex._lower", "AssignPartitioningIndex.operation")
+fp("dask/utils.py", "digit", "insert")
+# C38
+fp("dask/dataframe/dask_expr/_groupby.py", "SingleAggregation.chunk", "SingleAggregation.aggregate", "GroupByReduction",
+   "IdxMin", "Mean", "Var", "NUnique", "Median", "GroupByCumulative._lower", "GroupByCumulativeFinalizer._layer")
+fp("dask/dataframe/groupby.py", "_groupby_aggregate", "_apply_chunk", "_cum_agg_aligned", "_cum_agg_filled", "_var_chunk", "_var_agg")
+fp("dask/dataframe/dask_expr/_reductions.py", "ApplyConcatApply._lower", "ShuffleReduce._lower", "TreeReduce._layer")
+# C39
+fp("dask/dataframe/dask_expr/_merge.py", "Merge._lower", "Merge.is_broadcast_join", "Merge.broadcast_side",
+   "Merge._is_single_partition_broadcast", "BroadcastJoin._layer", "HashJoinP2P._layer")
+fp("dask/dataframe/multi.py", "merge_chunk", "_split_partition")
+fp("dask/dataframe/dask_expr/_concat.py", "Concat._lower", "Concat._simplify_up", "Concat._divisions")
+# C47
+fp("dask/dataframe/io/csv.py", "pandas_read_text", "coerce_dtypes", "text_blocks_to_pandas", "_read_csv", "read_pandas", "to_csv")
+
+
+def _method_name(node):
+    """`M.sum` -> "sum"; `staticmethod(_f)` -> "_f"; anything else -> unparsed text"""
+    if isinstance(node, ast.Attribute) and isinstance(node.value, ast.Name) and node.value.id == "M":
+        return node.attr
+    if isinstance(node, ast.Call) and isinstance(node.func, ast.Name) and node.func.id == "staticmethod" and len(node.args) == 1:
+        return ast.unparse(node.args[0])
+    return ast.unparse(node)
+
+
+@table("GroupbyAggs")
+def groupby_aggs(repo):
+    """`groupby_chunk` / `groupby_aggregate` of every `SingleAggregation` subclass of dask_expr/_groupby.py:
+    the pair (what is applied to each group of a partition, what is applied to each group of the concatenated
+    partials). The C38 theorems apply to the pairs listed as monoid homomorphisms in Props/C38.lean."""
+    tree = parse(repo, "dask/dataframe/dask_expr/_groupby.py")
+    classes = {n.name: n for n in tree.body if isinstance(n, ast.ClassDef)}
+
+    def derives(c, seen=()):
+        for b in c.bases:
+            nm = ast.unparse(b)
+            if nm == "SingleAggregation":
+                return True
+            if nm in classes and nm not in seen and derives(classes[nm], seen + (nm,)):
+                return True
+        return False
+    rows = []
+    for name, c in classes.items():
+        if not derives(c):
+            continue
+        attrs = {}
+        for st in c.body:
+            if isinstance(st, ast.Assign) and len(st.targets) == 1 and isinstance(st.targets[0], ast.Name) \
+                    and st.targets[0].id in ("groupby_chunk", "groupby_aggregate"):
+                attrs[st.targets[0].id] = _method_name(st.value)
+        if "groupby_chunk" in attrs:
+            rows.append((name, attrs["groupby_chunk"], attrs.get("groupby_aggregate", attrs["groupby_chunk"])))
+    if not rows:
+        raise ExtractError("no SingleAggregation subclass with groupby_chunk found")
+    names = {r[0] for r in rows}
+    for need in ("Sum", "Min", "Max", "First", "Last", "Count", "Size"):
+        if need not in names:
+            raise ExtractError(f"aggregation class {need} not found")
+    rows.sort()
+    body = ",\n  ".join(f'("{a}", "{b}", "{c}")' for a, b, c in rows)
+    return ("namespace Dask.Generated\n\n/-- (class, groupby_chunk, groupby_aggregate) -/\n"
+            f"def groupbyAggs : List (String × String × String) := [\n  {body}]\n\nend Dask.Generated\n")
